@@ -454,7 +454,7 @@ def trusted_base(b):
         'Coq 8.16.1 kernel (coqc, full .vo build; vm_compute used for finite table facts; no native_compute)',
         'Print Assumptions under every property theorem: ' +
         ('all closed under the global context' if all(a['closed'] for a in b.assumptions) else json.dumps(b.assumptions)),
-        'translator harness/gen_coq.py (config.py, CPython codec and unicodedata tables -> theories/gen/*.v), re-run on this run',
+        'translators harness/gen_coq.py + harness/rx.py (config.py incl. the DE43 pattern via CPython re._parser, CPython codec / unicodedata / int() tables -> theories/gen/*.v), re-run on this run',
         'extraction plugin with ExtrOcamlBasic only (bool, option, unit, list, prod, sumbool, sumor, andb/orb inlined); '
         'no Extract Constant/Inductive of our own; ocaml/driver.ml line I/O glue; used only to run the model',
         'correspondence harness (generators, canonicaliser, comparer); the model is hand-written and tied to /repo only by it',
@@ -548,6 +548,9 @@ def run_check(prop_id, tier, seed):
             'traces_validated_against_impl': stats.get('traces_validated', 0),
             'unmodelled': stats.get('unmodelled', 0),
             'input_distribution': dist,
+            'environment_profiles': {'A (default)': sum(1 for c in cases if c.get('_env', 'A') == 'A'),
+                                     'B (python -O, UserWarning/RuntimeWarning as errors, DEBUG logging on, DST time zone, C locale)': sum(1 for c in cases if c.get('_env') == 'B')},
+            'thread_pass': bool(getattr(prop, 'THREADS', False)),
             'correspondence_disagreements': len(corr),
             'oracle_failures': len(oracle), 'known_findings_hit': known_hit,
             'exhaustive': bool(getattr(prop, 'EXHAUSTIVE', {}).get(tier, False)),
